@@ -5,6 +5,7 @@ from __future__ import annotations
 
 import itertools
 import json
+import sys
 import typing
 from typing import Any, Dict, List, Optional, Tuple
 
@@ -210,6 +211,63 @@ def reload_stage(res: Result, CallTrace, CallTraceRow) -> None:
     res.oblige("trace:reload-between-decodes", True)
 
 
+def late_import_stage(res: Result, ctx, CallTrace, CallTraceRow) -> None:
+    """A module that cannot be imported at the first decode attempt (its directory is not on sys.path yet) and can at the
+    second: the failed attempt is a MonkeyTypeError, and the later decode of the SAME rows gives back the types and traces
+    (nothing remembers the earlier failure)."""
+    import importlib
+
+    from monkeytype.encoding import type_from_json
+    from monkeytype.exceptions import MonkeyTypeError
+
+    d = ctx.tmp / "c08_late"
+    d.mkdir(exist_ok=True)
+    name = f"c08late_{ctx.seed}"
+    (d / f"{name}.py").write_text("class Late:\n    class Inner:\n        pass\n\n\ndef late_func(x):\n    return x\n")
+    jsons = ['{"module": "%s", "qualname": "Late"}' % name, '{"module": "%s", "qualname": "Late.Inner"}' % name,
+             '{"elem_types": [{"module": "%s", "qualname": "Late"}], "module": "typing", "qualname": "List"}' % name]
+    row = CallTraceRow(name, "late_func", '{"x": {"module": "%s", "qualname": "Late"}}' % name, '{"module": "builtins", "qualname": "int"}', None)
+    case = {"what": "late-import", "tier": ctx.tier}
+    res.states += 1
+    res.evaluations += 1
+    res.validated += 1
+    res.transitions += 2 * (len(jsons) + 1)
+    sys.modules.pop(name, None)
+    for j in jsons + [row]:
+        try:
+            (type_from_json(j) if isinstance(j, str) else j.to_trace())
+            res.violate(Violation(ID, "exception", "late-import:decoded-without-the-module", case, f"{j!r} decoded although module {name} cannot be imported"))
+            return
+        except MonkeyTypeError:
+            pass
+        except Exception as e:  # noqa: BLE001
+            res.violate(Violation(ID, "exception", "late-import:" + type(e).__name__, case, f"first decode of {j!r} raised {e!r} (not a MonkeyTypeError)"))
+            return
+    sys.path.insert(0, str(d))
+    importlib.invalidate_caches()
+    try:
+        mod = importlib.import_module(name)
+        want = [mod.Late, mod.Late.Inner, typing.List[mod.Late]]
+        for j, w in zip(jsons, want):
+            try:
+                got = type_from_json(j)
+            except Exception as e:  # noqa: BLE001
+                res.violate(Violation(ID, "exception", "late-import:still-failing", case, f"{j} failed to decode while {name} was not importable; now that it is, decoding raises {e!r}"))
+                continue
+            if O.struct(got) != O.struct(w):
+                res.violate(Violation(ID, "type", "late-import:wrong-type", case, f"{j} decodes to {O.show(got)}, expected {O.show(w)}"))
+        try:
+            t = row.to_trace()
+            if t.func is not mod.late_func or O.struct(t.arg_types["x"]) != O.struct(mod.Late):
+                res.violate(Violation(ID, "trace", "late-import:wrong-trace", case, f"row decodes to {t!r}"))
+        except Exception as e:  # noqa: BLE001
+            res.violate(Violation(ID, "exception", "late-import:still-failing", case, f"the row of {name}.late_func failed to decode while the module was not importable; now that it is, to_trace() raises {e!r}"))
+    finally:
+        sys.path.remove(str(d))
+        sys.modules.pop(name, None)
+    res.oblige("trace:late-import", True)
+
+
 def store_stage(res: Result, ctx, CallTrace) -> None:
     """Every fixture function x {no argument types, one argument type} x return in {absent, NoneType, a type} x yield in
     {absent, NoneType, a type}, written through SQLiteStore.add (in two batches) and read back with filter(): exactly the
@@ -343,6 +401,7 @@ def run(ctx: Ctx) -> Result:
         if si == 0:
             reload_stage(res, CallTrace, CallTraceRow)
             store_stage(res, ctx, CallTrace)
+            late_import_stage(res, ctx, CallTrace, CallTraceRow)
         res.extra["types"] = len(types)
         res.extra["traces"] = len(combos)
         return res
@@ -354,6 +413,7 @@ def run(ctx: Ctx) -> Result:
         res.obligations.setdefault(f"trace:{fname}", False)
     res.obligations.setdefault("trace:reload-between-decodes", False)
     res.obligations.setdefault("trace:through-the-store", False)
+    res.obligations.setdefault("trace:late-import", False)
     res.bounds.update({"tier": ctx.tier})
     return res
 
@@ -367,6 +427,10 @@ def replay(case: Dict[str, Any], ctx: Ctx) -> List[Violation]:
     if case["what"] == "reload":
         r = Result()
         reload_stage(r, CallTrace, CallTraceRow)
+        return r.violations
+    if case["what"] == "late-import":
+        r = Result()
+        late_import_stage(r, ctx, CallTrace, CallTraceRow)
         return r.violations
     if case["what"] == "store":
         r = Result()
